@@ -81,6 +81,18 @@ Theorem C19_partial : forall eps p t, 0 <= eps -> params_pos p -> cousin_guard t
 Proof. exact rt_prop_partial. Qed.
 Print Assumptions C19_partial.
 
+(* the explicit recursion bound (`fuel`) of the model's contour walk never cuts the walk short, for
+   every tree: any fuel >= the height of the left subtree computes the same shift *)
+Theorem C19_fuel_sufficient : forall sts left right li ri f, (dheight left <= f)%nat ->
+  subtree_shift sts left right li ri =
+  match dkids left, dkids right with
+  | _ :: _, _ :: _ => contour f (ratio li ri) sts (rev (dkids left)) (dkids right)
+                              (Qred (dmod left + dsh left)) (Qred (dmod right + dsh right)) 0
+  | _, _ => 0
+  end.
+Proof. exact subtree_shift_fuel. Qed.
+Print Assumptions C19_fuel_sufficient.
+
 (* the hypotheses are satisfiable by non-trivial inputs: the complete binary tree with 15 nodes
    (three levels of contour comparison), and an irregular 14-node tree *)
 Definition bin3 : tree :=
